@@ -21,7 +21,10 @@ DECIDING = ['c16:cross_process_queries', 'c16:repeat_comparisons', 'c16:invarian
 RULE = ('proc cases: a corpus text (window, 0-2 small edits) x P sampled positions x 9 query '
         'methods, answered by 4 fresh processes with PYTHONHASHSEED in {0, 1, 12345, random} and '
         'allocation perturbation {0, 3000, 17000, 500} objects; normal forms compared as ordered '
-        'lists (goto/help as sets). repeat cases: on one Script up to 8 distinct queries, first '
+        'lists (goto/help as sets). project cases: a generated project whose core module is used by '
+        '6-60 other modules (flat and in packages; more than jedi scans in one search): project-wide '
+        'get_references, rename (changed files), Project.search / complete_search answered by the same '
+        'four kinds of processes. repeat cases: on one Script up to 8 distinct queries, first '
         'answers recorded, then 40 (thorough 200) further queries in random order with repeats, '
         'interleaved with failing ones (out-of-range positions -> ValueError, refused refactorings), '
         'every repeated answer compared with the first; after every API call the inference state '
@@ -62,6 +65,11 @@ def plan(tier, seed):
         specs.append({'id': 'c16d-%d' % i, 'mode': 'repeat', 'kind': 'file', 'dynparams': True,
                       'npos': 4, 'rounds': 20 if tier == 'quick' else 80,
                       'seed': '%s/C16/d%d' % (seed, i)})
+    for i in range(6 if tier == 'quick' else 40):
+        # a generated project in which one name is used by many (also more than 30) modules:
+        # project-wide references, rename and project search across hash seeds
+        specs.append({'id': 'c16j-%d' % i, 'mode': 'proc', 'kind': 'project',
+                      'users': [6, 34, 47, 33, 12, 60][i % 6], 'seed': '%s/C16/j%d' % (seed, i)})
     specs.append({'id': 'c16w-import-dup', 'mode': 'proc', 'kind': 'file', 'seed': 'w',
                   'text': WITNESS_TEXT, 'positions': [[1, 27], [1, 22]], 'npos': 2,
                   'methods': ['complete'], 'hashseeds': [str(x) for x in range(8)]})
@@ -74,19 +82,56 @@ def run(spec):
 
 # ------------------------------------------------------------------ (a) cross-process
 
+def project_case(spec, case_dir):
+    """core.py defines shared_fn / SharedCls / shared_val; `users` modules (flat and in two
+    packages) import and use them.  Returns (text of core.py, its path, queries, project kwargs)."""
+    rnd = random.Random(spec['seed'])
+    root = os.path.join(case_dir, 'proj')
+    os.makedirs(os.path.join(root, 'pk_a'))
+    os.makedirs(os.path.join(root, 'pk_b', 'deep'))
+    for d in ('pk_a', 'pk_b', 'pk_b/deep'):
+        with open(os.path.join(root, d, '__init__.py'), 'w') as f:
+            f.write('')
+    core = ('def shared_fn(x):\n    return x\n\n\nclass SharedCls:\n    def meth_s(self):\n'
+            '        return shared_fn(self)\n\n\nshared_val = shared_fn(SharedCls())\n')
+    with open(os.path.join(root, 'core.py'), 'w') as f:
+        f.write(core)
+    for i in range(spec['users']):
+        d = rnd.choice(['', '', 'pk_a', 'pk_b', 'pk_b/deep'])
+        nm = '%s_%02d.py' % (rnd.choice(['user', 'mod', 'zz', 'app']), i)
+        body = rnd.choice([
+            'from core import shared_fn, SharedCls\n\nres_%d = shared_fn(SharedCls().meth_s())\n' % i,
+            'import core\n\n\ndef use_%d():\n    return core.shared_fn(core.shared_val)\n' % i,
+            'from core import shared_fn\nfrom core import shared_val as sv\n\nres_%d = [shared_fn(sv)]\n' % i])
+        with open(os.path.join(root, d, nm), 'w') as f:
+            f.write(body)
+    queries = [['get_references', 1, 6], ['get_references', 5, 8], ['get_references', 10, 3],
+               ['rename', 1, 6], ['rename', 5, 8], ['project_search', 'shared_fn', 0],
+               ['project_search', 'SharedCls', 0], ['project_complete_search', 'shared', 0],
+               ['get_references', 6, 10], ['goto', 7, 18], ['infer', 10, 3]]
+    return core, os.path.join(root, 'core.py'), queries, {'path': root}
+
+
 def run_proc(spec):
     from vf.driver import digest
-    text, near, rnd = c01.build_text(spec)
     rec = apimon.Recorder()
     run_dir = os.environ.get('VERIF_RUN_DIR', '/var/tmp')
     case_dir = os.path.join(run_dir, 'c16-' + spec['id'])
     os.makedirs(case_dir, exist_ok=True)
-    path = os.path.join(case_dir, 'buf.py')
-    pos = [tuple(p) for p in spec['positions']] if spec.get('positions') else \
-        mutate.positions(text, rnd, spec['npos'], near=near)
-    methods = spec.get('methods', METHODS)
-    queries = [[m, l, c] for (l, c) in pos for m in methods]
-    job = {'text': text, 'path': path, 'queries': queries, 'roots': [['<case>', case_dir]]}
+    if spec.get('kind') == 'project':
+        text, path, queries, pkw = project_case(spec, case_dir)
+        pos = [(q[1], q[2]) for q in queries]
+        job = {'text': text, 'path': path, 'queries': queries, 'roots': [['<case>', case_dir]],
+               'project': pkw}
+        rec.ev('c16:project_cases')
+    else:
+        text, near, rnd = c01.build_text(spec)
+        path = os.path.join(case_dir, 'buf.py')
+        pos = [tuple(p) for p in spec['positions']] if spec.get('positions') else \
+            mutate.positions(text, rnd, spec['npos'], near=near)
+        methods = spec.get('methods', METHODS)
+        queries = [[m, l, c] for (l, c) in pos for m in methods]
+        job = {'text': text, 'path': path, 'queries': queries, 'roots': [['<case>', case_dir]]}
     procs = PROCS if not spec.get('hashseeds') else [(h, 100 * i) for i, h in enumerate(spec['hashseeds'])]
     answers = []
     for i, (hs, perturb) in enumerate(procs):
@@ -107,8 +152,9 @@ def run_proc(spec):
             answers.append(None)
             rec.ev('c16:child_failed')
     good = [a for a in answers if a is not None]
-    res = {'id': spec['id'], 'digest': digest(text), 'events': rec.events, 'violations': [],
-           'nontrivial': False}
+    res = {'id': spec['id'], 'digest': digest([text, spec.get('users'), spec['seed']]
+                                              if spec.get('kind') == 'project' else text),
+           'events': rec.events, 'violations': [], 'nontrivial': False}
     if len(good) < 2:
         res['inconclusive'] = ['fewer than two oracle processes answered']
         return res
